@@ -1,10 +1,39 @@
 HOOK_COMMITS = ["9db45bf"]
 ENGINES = [
     {"name": "evalsrv+python-monitors", "path": "/verif/harness/src/bin/evalsrv.rs + /verif/driver",
-     "serves_properties": [], "kind_free_text": "batch evaluation server over the public rsjsonnet API (Program/Session/Lexer/Parser/SpanManager) observed by Python oracles (reference models, independent decoders, metamorphic relations)"},
+     "serves_properties": ["C01", "C05", "C06", "C19"], "kind_free_text": "batch evaluation server over the public rsjsonnet API (Program/Session/Lexer/Parser/SpanManager) observed by Python oracles (reference models, independent decoders, metamorphic relations)"},
     {"name": "gcheap", "path": "/verif/harness/src/bin/gcheap.rs",
      "serves_properties": ["C03"], "kind_free_text": "scripted-heap driver over the real collector (hook 2) with a reference reachability model; exhaustive small scope + random large scope; also run under Miri"},
 ]
 NOTES = "Runtime monitoring only: every verdict is 'held on the executions observed'. See DESIGN.md."
 NOT_CLAIMED = {}
-CHECKS = {}
+
+_BASE_NOTE = ("Trusted base: the harness (evalsrv) faithfully reports what the public API returned; the Python oracle "
+              "named in 'technique'; generators reach only the input classes listed in the evidence file's rule.")
+
+CHECKS = {
+    "C01": {
+        "technique": "runtime monitoring: crash/panic monitor (catch_unwind + child-process death + CLI exit status) over byte-level fuzz, builtin x boundary-argument matrix and nesting towers",
+        "text": "Exploration: every execution produced (mutated corpus / token soup / random bytes; every std function on boundary argument tuples; CLI with ext vars/TLAs; deep towers) ended in a value or a typed, rendered error; any panic, abort, native stack overflow or exit status outside {0,1,2} is a violation. Held on the inputs observed, not a proof of totality.",
+        "note": _BASE_NOTE + " Resource exhaustion (timeouts/OOM) is inconclusive. Two open known findings (parser native stack overflow on deep nesting; sourceannot assertion on zero-width spans).",
+        "design_ref": "DESIGN.md section 2 C01",
+    },
+    "C05": {
+        "technique": "runtime monitoring: independent decoders (own strict RFC 8259 parser, Python json/ast/tomllib, own YAML-subset reader, PyYAML) on every emitted document vs the value seen through the Value API",
+        "text": "Exploration with exhaustive sub-spaces (all code points U+0000..U+02FF and boundary code points as value/key/first/last char; sensitive plain keys): every document emitted by 15 emitters and the CLI decoded to the same value (doubles bitwise, strings by code point, keys sorted, visible fields only).",
+        "note": _BASE_NOTE + " YAML restricted as the property states; PyYAML is a YAML 1.1 reader, documents with characters that are line breaks/non-printable only in 1.1 are not shown to it.",
+        "design_ref": "DESIGN.md section 2 C05",
+    },
+    "C06": {
+        "technique": "runtime monitoring: finiteness gate on the Value API walk for every operator/builtin over a boundary grid; literal reading vs Python float() bitwise; printing round-trip + shortest digit count",
+        "text": "Exploration: operators (all pairs of a ~200 point boundary grid in thorough), every std function on number tuples, array folds, parse functions never produced NaN/inf as a value; literals (halfway cases, 400 digits, underscores) read as the correctly rounded double; numbers printed on 10 paths read back bitwise with the shortest digit count.",
+        "note": _BASE_NOTE + " Python float()/repr correctly rounded; libm-dependent builtins only gated for finiteness.",
+        "design_ref": "DESIGN.md section 2 C06",
+    },
+    "C19": {
+        "technique": "runtime monitoring: differential oracle (Python % operator, digit for digit on the shared printf subset) + width/shape invariants on generated directive x flags x width x precision x value",
+        "text": "Exploration with an exhaustive sub-space (all 32 flag subsets x 14 conversions x small widths/precisions): rendered fields equal Python's on the shared subset, are never shorter than their width in characters, g/G and >= 2^53 magnitudes satisfy value/shape invariants, malformed formats and count/type/key mismatches are errors.",
+        "note": _BASE_NOTE + " -0.0 under e/f normalised (conventions differ); #o, %.Ns and %(k) with array arguments excluded (upstream conventions differ from Python).",
+        "design_ref": "DESIGN.md section 2 C19",
+    },
+}
